@@ -368,6 +368,31 @@ impl crate::ops::StrictOps for B {
             Ok((c, d)) => Ok((decode_open(&c).map_err(Fail::Malformed)?, decode_open(&d).map_err(Fail::Malformed)?)),
         }
     }
+
+    fn hypergraph_level<O: Lab, A: Lab>(f: &POpen<O, A>, g: &POpen<O, A>) -> Res<(POpen<O, A>, POpen<O, A>, POpen<O, A>, (POpen<O, A>, bool))> {
+        let (hf, hg) = (build_hyper(f), build_hyper(g));
+        let r = catch(|| {
+            let a = hf.coproduct(&hg);
+            let b = &hf + &hg;
+            let e = SHyper::<O, A>::empty();
+            let d = SHyper::<O, A>::discrete(sf(&f.nodes));
+            let disc = d.is_discrete();
+            (a, b, e, d, disc)
+        });
+        match r {
+            Err(p) => Err(Fail::Panic(p)),
+            Ok((a, b, e, d, disc)) => Ok((
+                decode_hyper(&a).map_err(Fail::Malformed)?,
+                decode_hyper(&b).map_err(Fail::Malformed)?,
+                decode_hyper(&e).map_err(Fail::Malformed)?,
+                (decode_hyper(&d).map_err(Fail::Malformed)?, disc),
+            )),
+        }
+    }
+    fn source_target_trait<O: Lab, A: Lab>(f: &POpen<O, A>) -> Res<(Vec<O>, Vec<O>)> {
+        let f = build_open(f);
+        pan(catch(|| (<SOpen<O, A> as Arrow>::source(&f).0 .0, <SOpen<O, A> as Arrow>::target(&f).0 .0)))
+    }
 }
 
 /// the forward or the reverse half of a plain optic as a strict functor on this backend
